@@ -2,7 +2,7 @@
 C19 (checkpoint store).  The repository state handed to the model is OBSERVED from git after every
 operation (ls-tree, ls-files, the files on disk), never mirrored, so the harness does not bake in a
 second opinion of what git operations mean."""
-import hashlib, json, os, shutil, subprocess
+import hashlib, json, os, shutil, subprocess, tempfile
 import vlib, gen_config as G
 
 NAMES = ["a/f.txt", "a/g.txt", "a/sub/h.rs", "b/x y.txt", "b/ünï.txt", 'c/q"uote.txt', "c/back\\slash.txt",
@@ -268,8 +268,14 @@ def scenario(ctx, sseed, focus):
                     after_delete(ctx, repo, trail)
                     if focus == "C19" and rng.random() < 0.5: failing_update(ctx, repo, rng, trail)
                 else:
-                    rc, out, err, raw = vlib.monorail(repo.repo, "out", "delete", "--all"); trail.append(["out_delete_all"])
-                    ok = rc == 0 and show_checkpoint(repo) is None
+                    # half of the time the command is started somewhere else - in a directory that has a monorail-out of its own
+                    elsewhere = None
+                    if rng.random() < 0.5:
+                        elsewhere = tempfile.mkdtemp(prefix="elsewhere-", dir=ctx.scratch)
+                        os.makedirs(os.path.join(elsewhere, "monorail-out", "precious")); open(os.path.join(elsewhere, "monorail-out", "precious", "data"), "w").write("keep")
+                    rc, out, err, raw = vlib.monorail(repo.repo, "out", "delete", "--all", cwd=elsewhere); trail.append(["out_delete_all", "from another directory" if elsewhere else "from the repository root"])
+                    ok = rc == 0 and show_checkpoint(repo) is None and (elsewhere is None or os.path.isfile(os.path.join(elsewhere, "monorail-out", "precious", "data")))
+                    ctx.count("out_delete_from_" + ("elsewhere" if elsewhere else "root"))
                     ctx.record({"trail": list(trail)}, True, ok, ok, False, detail={"what": "out delete --all", "rc": rc})
                     after_delete(ctx, repo, trail)
                     if focus == "C19" and rng.random() < 0.5: failing_update(ctx, repo, rng, trail)
